@@ -165,6 +165,12 @@ class IntegratorKrylov(Integrator):
     def set_state(self, t, state0):
         self._t_0 = t
         self._is_set = True
+        # The Lanczos recursion starts from a unit vector; the evolution is
+        # linear, so the norm of the state is factored out and put back in
+        # the states handed out.
+        self._norm = _data.norm.l2(state0)
+        if self._norm != 0 and self._norm != 1:
+            state0 = _data.mul(state0, 1 / self._norm)
         krylov_tridiag, krylov_basis = self._lanczos_algorithm(state0)
         self._krylov_state = self._compute_krylov_set(krylov_tridiag, krylov_basis)
 
@@ -185,7 +191,14 @@ class IntegratorKrylov(Integrator):
             )
 
     def get_state(self, copy=True):
-        return self._t_0, self._compute_psi(0, *self._krylov_state)
+        return self._t_0, self._scaled(
+            self._compute_psi(0, *self._krylov_state)
+        )
+
+    def _scaled(self, psi):
+        if self._norm != 0 and self._norm != 1:
+            return _data.mul(psi, self._norm)
+        return psi
 
     def integrate(self, t, copy=True):
         step = 0
@@ -195,11 +208,13 @@ class IntegratorKrylov(Integrator):
             step += 1
             if step >= self.options["nsteps"]:
                 raise IntegratorException(f"Maximum number of integration steps ({self.options['nsteps']}) exceeded")
-            new_psi = self._compute_psi(self._max_step, *self._krylov_state)
+            new_psi = self._scaled(
+                self._compute_psi(self._max_step, *self._krylov_state)
+            )
             self.set_state(self._t_0 + self._max_step, new_psi)
 
         delta_t = t - self._t_0
-        out = self._compute_psi(delta_t, *self._krylov_state)
+        out = self._scaled(self._compute_psi(delta_t, *self._krylov_state))
         return t, out
 
     @property
